@@ -202,6 +202,38 @@ def check_stepper(fx, R, cq, stepper, restart):
     # ---- S2 ----------------------------------------------------------
     W = sp.Symbol('this.windowSize_', integer=True)
     I = sp.Symbol('this.index_', integer=True)
+    if len(steps) > 2:
+        # shortcut paths: paths that touch no container.  Each must leave the object in the state the replace path would (the window slides by one on EVERY update): decided for the shortcut conditions that
+        # are readable - `window full` and `an element equals the incoming sample` - anything else is undecided
+        touching = [s for s in steps if any(isinstance(v, sym.Cont) and v.ops for v in s.fields.values())]
+        short = [s for s in steps if s not in touching]
+        if len(touching) == 2 and short:
+            size0_ = sp.Symbol('size(this.data_)', integer=True, nonnegative=True)
+            for s_ in short:
+                desc = ' && '.join(('' if c[2] else '!') + '(' + c[0] + ')' for c in s_.cond)
+                readable = True
+                full_window = False
+                for c in s_.cond:
+                    rel = c[1] if c[2] else (sp.Not(c[1]) if isinstance(c[1], sp.Basic) else None)
+                    if rel in (sp.Eq(size0_, W), sp.Eq(W, size0_)):
+                        full_window = True
+                    elif isinstance(rel, sp.Equality) and any(t.func == sp.Function('elem') for t in rel.atoms(sp.Function)):
+                        pass
+                    elif isinstance(rel, (sp.And,)) and all(isinstance(a_, sp.Equality) for a_ in rel.args):
+                        full_window = full_window or any(a_ in (sp.Eq(size0_, W), sp.Eq(W, size0_)) for a_ in rel.args)
+                    else:
+                        readable = False
+                iv = s_.fields.get(('this', 'index_'))
+                advanced = isinstance(iv, sp.Basic) and iv == sp.Mod(I + 1, W)
+                if advanced:
+                    R.holds('S2', '%s::%s:shortcut[%s]' % (cname, stepper, desc), 'the shortcut path advances index_ like the replace path', fx.rel(fstep['loc']), 'E-STATE')
+                elif readable and full_window:
+                    R.violated('S2', '%s::%s:shortcut-skips-index' % (cname, stepper), 'on the path [%s] (window full, incoming sample equal to a stored one) %s() returns without advancing index_ (%s): the window must slide '
+                               'by one on every update - the NEXT, different sample then overwrites the slot of this sample instead of the oldest one, and the object no longer holds the last W samples' % (
+                                   desc, stepper, 'left as it was' if iv is None or iv == I else iv), fx.rel(fstep['loc']), 'E-STATE')
+                else:
+                    R.undecided('S2', '%s::%s:shortcut[%s]' % (cname, stepper, desc), 'a path of %s() touches no container and its condition is not one of the readable shortcut conditions' % stepper)
+            steps = touching
     if len(steps) != 2:
         R.undecided('S2', cname, '%s() has %d paths, expected the fill path and the replace path' % (stepper, len(steps)))
         return
